@@ -185,6 +185,20 @@ fn events<B: Borrow<BWT>, L: Borrow<Less>, O: Borrow<Occ>>(
             json!({ "ivs": ivs })
         });
     }
+    // minimum lengths at and beyond 2^32 (legal usize values): no match can be that long. The value does
+    // not fit the checker's integers and is logged as a decimal string.
+    const HUGE: [usize; 8] = [(1 << 32) - 1, 1 << 32, (1 << 32) + 1, (1 << 32) + 3, 1 << 33, 1 << 40, usize::MAX, isize::MAX as usize];
+    for (pi, (p, _)) in job.smems.iter().take(2).enumerate() {
+        let big = HUGE[(pi * 3 + p.len() + job.paths.len()) % 8];
+        log.call("smems_big", json!({"p": bytes(p), "l_str": big.to_string()}), || {
+            let res: Vec<Value> = (0..p.len())
+                .map(|i| Value::Array(fmd.smems(p, i, big).iter().map(|m| match_json(m, sa)).collect()))
+                .collect();
+            let all: Vec<Value> = fmd.all_smems(p, big).iter().map(|m| match_json(m, sa)).collect();
+            json!({ "res": res, "all": all })
+        });
+        log.oblige("min_len_ge_2p32");
+    }
     for (pi, (p, _)) in job.smems.iter().take(3).enumerate() {
         let it = (pi + p.len()) % 4;
         log.call("bsearch", json!({"p": bytes(p), "it": it}), || {
